@@ -1,4 +1,5 @@
 import Xo.Model.CSem
+import Xo.Lemmas.CApiLayout
 /-! C02 — generated C accessors address the same bytes as the documented layout (property theorems only).
 
 Everything here is quantified over ALL part lists (so in particular over every access path that
@@ -109,5 +110,57 @@ example :
     let arr : Ty := .array (.struct "S" [("a", .scalar .f64), ("s", .string)]) [none, some 3] [1, 0]
     let path : List Part := [.ty (.struct "T" []), .field "x" 24 true, .ty arr, .index arr, .ty (.struct "S" []), .field "a" 8 false]
     genStmts path 0 0 = [.addLoadAt 24, .index arr 0, .addConst 8] := by simp [genStmts, dump]
+
+/-- **the C index arithmetic is the Python view's**: in EVERY memory the address the generated code computes for an array item
+(`itemOffset`: the semantics of the emitted index statements, `C02_addr`) is the address a view computes from the strides it
+caches - data offset plus `Σ idx·stride`, and for dynamically sized items the offset-table entry stored there - whenever the C
+item type and the layout item type agree on their static size -/
+theorem C02_index_is_view_index (itC : Ty) (it : Lay.Ty) (shape : List (Option Nat)) (order : List Nat)
+    (hsz : Ty.ssize itC = it.ssize) (m : MemS.Mem) (off : Nat) (idx : List Nat)
+    (hl : idx.length = (Lay.viewStrides it shape order m off).length) :
+    let a := off + (Lay.ainfo it shape).dataOff + Lay.dot idx (Lay.viewStrides it shape order m off)
+    itemOffset (Lay.ldM m) 0 (off : Int) (.array itC shape order) (idx.map Int.ofNat) 0 =
+      if (Lay.ainfo it shape).staticType then (a : Int) else ((off + MemS.fromLE (MemS.readAt m a 8) : Nat) : Int) :=
+  Lay.cgen_itemOffset itC it shape order hsz m off idx hl
+
+/-- **the C accessor reaches the written item**: on any memory that holds an array the writer produced (any shape - static,
+dynamic, mixed -, any axis order that is a permutation of the axes, fixed-size or dynamically sized items), for every valid
+index tuple the generated code's item address is in the buffer image and what a view reads there is the item the constructor
+was given for that index tuple's memory position -/
+theorem C02_array_item (itC : Ty) (it : Lay.Ty) (shape : List (Option Nat)) (order sh : List Nat) (items : List Lay.Val)
+    (hsz : Ty.ssize itC = it.ssize)
+    (hw : (Lay.Ty.array it shape order).WF) (hc : Lay.Conf (.array it shape order) (.arr sh items))
+    (hs : Lay.vsize (.array it shape order) (.arr sh items) < 2 ^ 64)
+    (hperm : order.Perm (List.range shape.length))
+    (hsw : ∀ s ∈ Lay.getStrides sh order (Lay.ainfo it shape).unit, s < 2 ^ 64)
+    (m : MemS.Mem) (off : Nat) (hb : off + Lay.vsize (.array it shape order) (.arr sh items) ≤ m.length) (m' : MemS.Mem)
+    (hag : Lay.Agree m' (Lay.apply (Lay.shift off (Lay.patchesD (.array it shape order) (.arr sh items))) m) off
+      (off + Lay.vsize (.array it shape order) (.arr sh items)))
+    (idx : List Nat) (hv : Lay.ValidIdx sh idx) :
+    let r := itemOffset (Lay.ldM m') 0 (off : Int) (.array itC shape order) (idx.map Int.ofNat) 0
+    0 ≤ r ∧ Lay.readD it m' r.toNat = (items.getD (Lay.mposL sh order idx) default).norm := by
+  have hstr := Lay.view_strides it shape order sh items hw hc hperm hsw m off hb m' hag
+  have hshl := Lay.shapeMatches_length shape sh hc.1
+  have hl : idx.length = (Lay.viewStrides it shape order m' off).length := by
+    rw [hstr, Lay.getStrides_length, hw.1, hv.1, hshl]
+  have h1 := Lay.cgen_itemOffset itC it shape order hsz m' off idx hl
+  obtain ⟨_, _, h4⟩ := Lay.view_item_at_index it shape order sh items hw hc hs hperm hsw m off hb m' hag idx hv
+  simp only at h1 h4 ⊢
+  rw [h1]
+  by_cases hst : (Lay.ainfo it shape).staticType = true
+  · simp only [hst, ↓reduceIte] at h4 ⊢
+    exact ⟨Int.natCast_nonneg _, by rw [Int.toNat_natCast]; exact h4⟩
+  · have hst' : (Lay.ainfo it shape).staticType = false := by simpa using hst
+    simp only [hst', Bool.false_eq_true, ↓reduceIte] at h4 ⊢
+    exact ⟨Int.natCast_nonneg _, by rw [Int.toNat_natCast]; exact h4⟩
+
+/-! non-vacuity: `Int32[:, 3]` with 2 rows stored in F order at offset 8 of an 80-byte buffer (dimensions and strides in the
+header): the C arithmetic for index (1, 2) gives buffer offset 60, which is memory position 5, where the written item 15 is -/
+example :
+    let tL : Lay.Ty := .array (.scalar 4) [none, some 3] [1, 0]
+    let vL : Lay.Val := .arr [2, 3] [.bits 10, .bits 11, .bits 12, .bits 13, .bits 14, .bits 15]
+    let img : MemS.Mem := Lay.apply (Lay.shift 8 (Lay.patchesD tL vL)) (List.replicate 80 0)
+    itemOffset (Lay.ldM img) 0 8 (.array (.scalar .i32) [none, some 3] [1, 0]) [1, 2] 0 = 60 ∧
+    Lay.mposL [2, 3] [1, 0] [1, 2] = 5 ∧ MemS.fromLE (MemS.readAt img 60 4) = 15 := by decide +kernel
 
 end CGen
